@@ -5,6 +5,8 @@ import (
 	"errors"
 	"sync"
 	"time"
+
+	"github.com/samsarahq/thunder/internal/verifhook"
 )
 
 var (
@@ -272,16 +274,20 @@ func Cache(ctx context.Context, key interface{}, f ComputeFunc) (interface{}, er
 		return nil, err
 	}
 	defer cache.locker.Unlock(key)
+	verifhook.Yield("cache.locked")
 
 	if child := cache.get(key); child != nil {
+		verifhook.Yield("cache.hit")
 		child.node.addOut(&computation.node)
 		return child.value, nil
 	}
 
+	verifhook.Yield("cache.miss")
 	child, err := run(ctx, f)
 	if err != nil {
 		return nil, err
 	}
+	verifhook.Yield("cache.set")
 	cache.set(key, child)
 
 	child.node.addOut(&computation.node)
@@ -364,6 +370,7 @@ func (r *Rerunner) run() {
 	case <-r.flushCh:
 	}
 	t.Stop()
+	verifhook.Yield("rerunner.run.woke")
 	if r.ctx.Err() != nil {
 		return
 	}
@@ -377,6 +384,7 @@ func (r *Rerunner) run() {
 
 	r.mu.Lock()
 	defer r.mu.Unlock()
+	verifhook.Yield("rerunner.run.locked")
 
 	// Bail out if the computation has been stopped.
 	if r.stop {
@@ -388,6 +396,7 @@ func (r *Rerunner) run() {
 		time.Sleep(WriteThenReadDelay)
 	}
 	r.cache.cleanInvalidated()
+	verifhook.Yield("rerunner.run.cleaned")
 
 	// Cancel the context passed to "run". Canceling the context ensures that
 	// libraries let go of the context when they might otherwise hold onto it long
@@ -398,6 +407,7 @@ func (r *Rerunner) run() {
 	ctx = context.WithValue(ctx, dependencySetKey{}, &dependencySet{})
 
 	currentComputation, err := run(ctx, r.f)
+	verifhook.Yield("rerunner.run.computed")
 	r.lastRun = time.Now()
 	if err != nil {
 		if err != RetrySentinelError {
@@ -428,6 +438,7 @@ func (r *Rerunner) run() {
 
 		// Schedule a rerun whenever our node becomes invalidated (which might already
 		// have happened!)
+		verifhook.Yield("rerunner.run.arming")
 		currentComputation.node.handleInvalidate(func() {
 			if r.alwaysSpawnGoroutine {
 				go r.run()
@@ -441,6 +452,7 @@ func (r *Rerunner) run() {
 func (r *Rerunner) Stop() {
 	// Call cancelCtx before acquiring the lock as the lock might be held for a long time during a running computation.
 	r.cancelCtx()
+	verifhook.Yield("rerunner.stop.cancelled")
 
 	r.mu.Lock()
 	r.stop = true
